@@ -1,4 +1,5 @@
 import SamplyModel.Model.ProfileSer
+import SamplyModel.Model.ProfileCanon
 /-!
 Canonical interning (C03), specification side, below the frame-index level: *decoding* a row of the
 serialized frame table back into what the caller passed.
@@ -219,5 +220,10 @@ def P.SymFrameSpec (p : P) (t : Nat) (a : AddrSpec) (name : Option Nat) (nsym : 
     | .unknown addr => d.name = nm.getD (hexStr addr) ∧ d.lib = none ∧ d.addr = none ∧ d.nsym = none ∧ d.depth = 0
     | .inLib rel lib => ∃ id q, p.libs.all[lib]? = some id ∧ p.nsymDescOf th nsym.2 = some q ∧
         d.lib = some id ∧ d.addr = some rel ∧ d.nsym = some q ∧ d.depth = depth ∧ d.name = nm.getD q.2.2.2
+
+/-- what stack row `i` of a serialized thread says: the descriptions of its frames, root first
+(`stackTable.prefix` / `stackTable.frame` walked from `i`, every frame decoded) -/
+def decodeStack (s : SerProfile) (t : SerThread) (i : Nat) : Option (List FrameDesc) :=
+  (walk t.stPrefix t.stFrame (i + 1) i).bind (mapM' (decodeFrame s t))
 
 end PT
